@@ -2,6 +2,10 @@ BOUNDS = 'all pairs (a,b) of every 8-bit, packed (1..16 bit) and 16-bit channel 
 OUTSIDE = 'float32 channel_multiply monotonicity for normal-range operands (float multiplier circuits: no verdict within cap on any back end); 16-bit multiply monotonicity over the full pair space (no verdict within cap: stratified instead); 32-bit integer channel_multiply (generic double path) interior laws'
 ASSUMPTIONS = ['float channels are assumed to lie in [0,1]', 'packed channel values are assumed to be <= their maximum']
 def queries(tier, seed):
+    qs = _queries(tier, seed)
+    for q in qs: q.nsw = True   # signed overflow in the arithmetic kernels (nsw operations of the IR) is a failed obligation (ub.signed_overflow)
+    return qs
+def _queries(tier, seed):
     qs = []
     ms = [('std::uint8_t', 0, 0, 8), ('std::int8_t', 0, 0, 8), ('std::uint16_t', 0, 0, 16), ('std::int16_t', 0, 0, 16), ('gil::float32_t', 1, 0, 24)]
     for n in ([1, 2, 5, 6, 7, 8, 10, 16] if tier == 'quick' else range(1, 17)): ms.append(('gil::packed_channel_value<%d>' % n, 0, 1, n))
